@@ -308,11 +308,15 @@ def faults(R):
     F['tdh_bc_decreasing'] = bc_decreasing
 
     def overpad(pk, R):
-        cand = [i for i, p in enumerate(pk) if p.fmt == 2 and p.words]
+        cand = [i for i, p in enumerate(pk) if p.words and p.raw_payload is None]
         if not cand: return None
         i = R.choice(cand)
-        pk[i].pad = 16 + ((-10 * len(pk[i].words)) % 16) % 16
-        pk[i].pad = max(16, pk[i].pad)
+        if pk[i].fmt == 2:
+            pk[i].pad = 16 + ((-10 * len(pk[i].words)) % 16) % 16
+            pk[i].pad = max(16, pk[i].pad)
+        else:
+            # the limit is a property of every payload, whatever its data format: 16-byte slots followed by > 15 bytes of 0xFF
+            pk[i].raw_payload = pk[i].payload() + b'\xff' * R.choice([16, 24, 32])
         return (G.offsets(pk)[i], {'PAYLOAD'}, True, False)
     F['padding_over_15'] = overpad
     return F
@@ -420,9 +424,17 @@ def run_c06(ck, ctx):
         for _ in range(nf):
             F[R.choice(fnames)](pk, R)
         if pk[0].encode()[:8] != base[0].encode()[:8]: pk[0].rdh.update({k: base[0].rdh[k] for k in ('hsize', 'fee', 'prio', 'res0', 'ver')})
-        data = G.encode(pk)
+        data_links = G.encode(pk)
+        # stave mode keys the validators by FEE ID: there several FEE IDs may share one GBT link id (same link number on
+        # both CRU end points). Every second stream is given shared link ids for the stave-mode comparison.
+        pk_shared = [p.clone() for p in pk]
+        if si % 2 == 0:
+            for p in pk_shared: p.rdh['link'] = p.rdh['link'] % 2
+            ck.count('c06_stave_streams_with_shared_link_ids')
+        data_shared = G.encode(pk_shared)
         for m in [('all', 'its'), ('all', 'stave'), ('sanity', 'its'), ('all', None)]:
             key = 'fee' if m[1] == 'stave' else 'link'
+            data = data_shared if m[1] == 'stave' else data_links
             groups = link_groups(data, key)
             full = L.run_cli(mode_args(m), data)
             ck.case((si, m)); ck.count(f'links_{len(groups)}'); ck.count('faults', nf)
